@@ -89,16 +89,8 @@ Proof.
   destruct (evaluate ts b) as [r|e]; reflexivity.
 Qed.
 
-(** contains_behavior *)
-Theorem contains_behavior_eq ts b :
-  Forall wft ts -> PolyhedralTermList_contains_behavior ts b = contains_behavior ts b.
-Proof.
-  intros Hts. unfold PolyhedralTermList_contains_behavior, contains_behavior. cbv zeta.
-  rewrite termlist_vars_eq. unfold py_list, dict_keys.
-  destruct (nonempty (list_diff (tl_vars ts) (keys b))); [reflexivity|].
-  unfold try_except. rewrite (evaluate_eq ts b Hts).
-  destruct (evaluate ts b) as [r|e]; [reflexivity|]. cbn. destruct (is_value_error e); reflexivity.
-Qed.
+(* contains_behavior: proofs/TermListGenContains.v (a file of its own, so that a change to that method alone stops only its own
+   obligation from checking) *)
 
 (* ------------------------------------------------------------------ *)
 (** The precondition is necessary: an association list with a repeated key denotes no Python dict; on it the
